@@ -36,11 +36,40 @@
 
    The per-copy write follows VolumeImpl/BlobStore: an unchanged rewrite keeps
    the old record (C01-unchanged-keeps-metadata), an empty payload is a size-0
-   needle (no metadata, delete is a no-op, lost on reload). *)
+   needle (no metadata, delete is a no-op, lost on reload).
+
+   The way an upload enters (Ways; weed/operation/upload_content.go in front of
+   the POST handler):
+     "mp"      a multipart POST as the client typed it: stored as sent
+               (compressed iff the client said Content-Encoding: gzip = Gz(m))
+     "reader"  operation.Upload / UploadData: doUploadData passes a compressed
+               input on with the gzip header, otherwise sniffs the mime type when
+               none is given and compresses text (here: metadata without a mime
+               type - the payload tokens are text); the bytes stored are the
+               compressed ones WITH the flag, so every copy decodes to the input
+     "cipher"  the same with cipher = true: the input (decompressed first when it
+               came compressed) is encrypted with a fresh key, the needle carries
+               no name, mime or pairs (metadata token m0), the key is returned to
+               the client only when the upload succeeds
+   A stored blob is Blob(c, d, m) + rep ("raw" | "gz": stored compressed with the
+   flag | "gzlost": compressed bytes WITHOUT the flag - only the seeded defect
+   DropGzFlag produces it) + enc (0 = not encrypted, n = encrypted with key n).
+     nkey      the next fresh key
+     ckey[k]   the keys the client holds for k (every key a successful encrypted
+               upload of k returned); a copy's decoded content is d iff it is not
+               encrypted or encrypted with one of them, and its bytes are not
+               "gzlost"; the outcome names the key that opens it (dec = "k<n>")
+   The fan-out forwards the primary's stored bytes, flag and metadata: a replica's
+   blob is the primary's (the re-compression of an uncompressed text needle by the
+   forwarding UploadData is not modelled: it does not change what decodes).
+   ReEncrypt (seeded defect, never the real code): the fan-out calls UploadData
+   with cipher = true - every replica stores the bytes under a key of its own.
+   DropGzFlag (seeded defect): doUpload passes isInputCompressed = false on. *)
 EXTENDS ReplWrite, Json
-CONSTANTS N, Keys, Cookies, Datas, MetaSet, VTtl, MaxOps, BKF, AckMissing, WithTransient, Faults, NoCountCheck, WithRace, SkipFanoutUnchanged
-VARIABLES live, ro, cache, phase, hist
-ivars == <<live, ro, cache, phase, hist>>
+CONSTANTS N, Keys, Cookies, Datas, MetaSet, VTtl, MaxOps, BKF, AckMissing, WithTransient, Faults, NoCountCheck, WithRace, SkipFanoutUnchanged,
+          Ways, ReEncrypt, DropGzFlag
+VARIABLES live, ro, cache, phase, hist, nkey, ckey
+ivars == <<live, ro, cache, phase, hist, nkey, ckey>>
 vars == <<ivars, avars>>
 
 Reps == {r \in AllR : r < N}
@@ -52,12 +81,29 @@ Init ==
   /\ live = [r \in Reps |-> [k \in Keys |-> None]]
   /\ ro = [r \in Reps |-> FALSE]
   /\ cache = NoCache /\ phase = "op" /\ hist = <<>>
+  /\ nkey = 1 /\ ckey = [k \in Keys |-> {}]
   /\ AInit(N, [st |-> "gone", c |-> "", d |-> ""])
 
 (* ---------------- one copy: doWriteRequest / doDeleteRequest (see VolumeImpl) ---------------- *)
-Unchanged(b, c, d, m) == VTtl = "" /\ b # None /\ ~StoredEmpty(b) /\ b.c = c /\ b.d = d /\ Gz(b.m) = Gz(m)
-CopyWrite(l, k, c, d, m) == IF Unchanged(l[k], c, d, m) THEN l ELSE [l EXCEPT ![k] = Blob(c, d, m)]
-CopyDelete(l, k) == IF l[k] = None \/ StoredEmpty(l[k]) THEN l ELSE [l EXCEPT ![k] = None]
+KeyName(n) == "k" \o ToString(n)
+(* what the POST handler receives for an upload of (d, m) that entered by `way` *)
+SniffsText(m) == MetaTable[m].mime = ""
+RepOf(way, m) ==
+  CASE way = "mp" -> IF Gz(m) THEN "gz" ELSE "raw"
+    [] way = "reader" -> IF Gz(m) THEN (IF DropGzFlag THEN "gzlost" ELSE "gz")
+                         ELSE IF SniffsText(m) THEN "gz" ELSE "raw"
+    [] way = "cipher" -> "raw"
+SBlob(c, d, m, way, key) ==
+  IF way = "cipher" THEN [c |-> c, d |-> d, m |-> "m0", rep |-> "raw", enc |-> key]
+  ELSE [c |-> c, d |-> d, m |-> m, rep |-> RepOf(way, m), enc |-> 0]
+(* a size-0 needle: empty payload, neither gzip-wrapped nor encrypted *)
+SEmpty(b) == b # None /\ b.d = "e" /\ b.rep = "raw" /\ b.enc = 0
+SDropEmpties(l) == [k \in DOMAIN l |-> IF SEmpty(l[k]) THEN None ELSE l[k]]
+(* same cookie, same stored bytes: never for an encrypted needle (fresh key and nonce) *)
+Unchanged(b, nb) == VTtl = "" /\ b # None /\ ~SEmpty(b) /\ b.enc = 0 /\ nb.enc = 0
+                    /\ b.c = nb.c /\ b.d = nb.d /\ b.rep = nb.rep
+CopyWrite(l, k, nb) == IF Unchanged(l[k], nb) THEN l ELSE [l EXCEPT ![k] = nb]
+CopyDelete(l, k) == IF l[k] = None \/ SEmpty(l[k]) THEN l ELSE [l EXCEPT ![k] = None]
 
 (* ---------------- operation.Lookup through the cache ---------------- *)
 Locs == IF cache # NoCache THEN cache ELSE MasterView
@@ -76,20 +122,27 @@ RemoteDelete(r, k, T) ==
   ELSE IF ro[r] THEN "err" ELSE "ok"
 
 (* ---------------- POST /vid,fid at server `to` ---------------- *)
-Upload(to, k, c, d, m, T) ==
-  LET locs == Locs
+Upload(to, k, c, d, m, T, way) ==
+  LET nb == SBlob(c, d, m, way, nkey)
+      \* what replica r is sent: the primary's needle (ReEncrypt: encrypted once more, under a key of r's own)
+      fwd(r) == IF ReEncrypt THEN [nb EXCEPT !.enc = nkey + 1 + r] ELSE nb
+      locs == Locs
       remote == locs \ {to}
       own == to \in InService
       early == locs = {} \/ (own /\ ~NoCountCheck /\ Cardinality(locs) < N) \/ (own /\ ro[to])
       \* SkipFanoutUnchanged (a seeded defect, never the real code): an unchanged local write returns at once
-      skip == SkipFanoutUnchanged /\ own /\ Unchanged(live[to][k], c, d, m)
+      skip == SkipFanoutUnchanged /\ own /\ Unchanged(live[to][k], nb)
       rres == [r \in remote |-> IF skip THEN "ack" ELSE RemoteWrite(r, T)]
       res == IF early \/ \E r \in remote : rres[r] = "err" THEN "err" ELSE "ok"
   IN /\ cache' = CacheAfter
      /\ live' = IF early THEN live
-                ELSE [r \in Reps |-> IF (r = to /\ own) \/ (r \in remote /\ rres[r] = "ok")
-                                     THEN CopyWrite(live[r], k, c, d, m) ELSE live[r]]
-     /\ AUpload(to, k, c, d, VTtl, res)
+                ELSE [r \in Reps |-> IF r = to /\ own THEN CopyWrite(live[r], k, nb)
+                                     ELSE IF r \in remote /\ rres[r] = "ok" THEN CopyWrite(live[r], k, fwd(r))
+                                     ELSE live[r]]
+     /\ nkey' = IF way = "cipher" THEN nkey + 1 + (IF ReEncrypt THEN N ELSE 0) ELSE nkey
+     \* the key reaches the client with the upload result: only when the upload is reported successful
+     /\ ckey' = IF way = "cipher" /\ res = "ok" THEN [ckey EXCEPT ![k] = @ \cup {nkey}] ELSE ckey
+     /\ AUpload(to, k, c, d, VTtl, res, way = "cipher", IF way = "cipher" THEN {<<"dec", KeyName(nkey)>>} ELSE {})
 
 (* ---------------- two POSTs for one file id at the same time ---------------- *)
 (* Both handlers run ReplicatedWrite concurrently: each copy sees the two writes (one as a local write or as a
@@ -99,13 +152,14 @@ Race(to1, to2, k, c, d1, d2, m) ==
   /\ InService = Reps /\ \A r \in Reps : ~ro[r]
   /\ d1 # d2
   /\ cache' = CacheAfter
-  /\ \E last \in [Reps -> {d1, d2}] : live' = [r \in Reps |-> [live[r] EXCEPT ![k] = Blob(c, last[r], m)]]
+  /\ \E last \in [Reps -> {d1, d2}] : live' = [r \in Reps |-> [live[r] EXCEPT ![k] = SBlob(c, last[r], m, "mp", 0)]]
   /\ ARace(k, c, d1, d2, "ok", "ok")
+  /\ UNCHANGED <<nkey, ckey>>
 
 (* ---------------- DELETE /vid,fid at server `to` ---------------- *)
 Delete(to, k, c, T) ==
   LET own == to \in InService
-      found == own /\ live[to][k] # None /\ (StoredEmpty(live[to][k]) \/ live[to][k].c = c)
+      found == own /\ live[to][k] # None /\ (SEmpty(live[to][k]) \/ live[to][k].c = c)
       locs == Locs
       remote == locs \ {to}
       early == locs = {} \/ (~NoCountCheck /\ Cardinality(locs) < N) \/ ro[to]
@@ -117,6 +171,7 @@ Delete(to, k, c, T) ==
                 ELSE [r \in Reps |-> IF r = to \/ (r \in remote /\ rres[r] = "ok")
                                      THEN CopyDelete(live[r], k) ELSE live[r]]
      /\ ADelete(to, k, c, res)
+     /\ UNCHANGED <<nkey, ckey>>
 
 (* ---------------- replica faults ---------------- *)
 Fault(kind, r) ==
@@ -129,30 +184,37 @@ Fault(kind, r) ==
              [] kind \in {"rw", "mount"} -> [ro EXCEPT ![r] = FALSE]
              [] OTHER -> ro
   (* mount = index replay: size-0 entries are read as deletions *)
-  /\ live' = IF kind = "mount" THEN [live EXCEPT ![r] = DropEmpties(live[r])] ELSE live
+  /\ live' = IF kind = "mount" THEN [live EXCEPT ![r] = SDropEmpties(live[r])] ELSE live
   /\ AFault(kind, r, "ok")
-  /\ UNCHANGED cache
+  /\ UNCHANGED <<cache, nkey, ckey>>
 
 (* ---------------- the observation: what every replica holds ---------------- *)
+(* decoding as a client does that holds ckey[k]: decrypt when the bytes are encrypted with one of its keys, gunzip
+   when the needle carries the flag; anything else comes back as the stored bytes ("?" + ... : not a payload token) *)
+Decoded(b, k) ==
+  IF b.enc # 0 /\ b.enc \notin ckey[k] THEN "?enc"
+  ELSE IF b.rep = "gzlost" THEN "?gz" ELSE b.d
 HeldOf(r, k) ==
-  IF live[r][k] = None THEN [st |-> "gone", c |-> "", d |-> ""]
-  ELSE IF StoredEmpty(live[r][k]) THEN [st |-> "data", c |-> "?", d |-> "e"]
-  ELSE [st |-> "data", c |-> live[r][k].c, d |-> live[r][k].d, m |-> live[r][k].m]
+  LET b == live[r][k] IN
+  IF b = None THEN [st |-> "gone", c |-> "", d |-> ""]
+  ELSE IF SEmpty(b) THEN [st |-> "data", c |-> "?", d |-> "e"]
+  ELSE [st |-> "data", c |-> b.c, d |-> Decoded(b, k), m |-> b.m,
+        dec |-> IF b.enc \in ckey[k] THEN KeyName(b.enc) ELSE "plain", ct |-> b.enc]
 ObsOf(r, k) == IF r \notin Reps \/ r \notin InService THEN [st |-> "novol", c |-> "", d |-> ""] ELSE HeldOf(r, k)
 Obs(k) == [r \in AllR |-> ObsOf(r, k)]
 
 Snap ==
   /\ phase = "snap" /\ phase' = "op"
   /\ val' = [r \in AllR |-> [k \in AllK |-> IF k \in Keys /\ r \in Readable(Obs(k)) THEN ObsOf(r, k) ELSE val[r][k]]]
-  /\ UNCHANGED <<live, ro, cache, hist, member, mounted, need, alt>>
+  /\ UNCHANGED <<live, ro, cache, hist, nkey, ckey, member, mounted, need, alt, want>>
 
 Op ==
   /\ phase = "op" /\ Len(hist) < MaxOps /\ phase' = "snap"
-  /\ \/ \E to \in Reps, k \in Keys, c \in Cookies, d \in Datas, m \in MetaSet :
+  /\ \/ \E to \in Reps, k \in Keys, c \in Cookies, d \in Datas, m \in MetaSet, way \in Ways :
           \E T \in (IF WithTransient THEN SUBSET (Reps \ {to}) ELSE {{}}) :
             /\ to \in member
-            /\ Upload(to, k, c, d, m, T)
-            /\ hist' = Append(hist, [ev |-> "upload", to |-> to, k |-> k, c |-> c, d |-> d, m |-> m])
+            /\ Upload(to, k, c, d, m, T, way)
+            /\ hist' = Append(hist, [ev |-> "upload", to |-> to, k |-> k, c |-> c, d |-> d, m |-> m, way |-> way])
             /\ UNCHANGED ro
      \/ \E to \in Reps, k \in Keys, c \in Cookies :
           \E T \in (IF WithTransient THEN SUBSET (Reps \ {to}) ELSE {{}}) :
@@ -183,6 +245,9 @@ Agreement ==
   phase = "snap" =>
     \A k \in Keys : need[k] =>
       /\ \A r1, r2 \in member : (~Excused(r1, k) /\ ~Excused(r2, k)) => live[r1][k] = live[r2][k]
+      \* ... and that blob is what the operation promised: it decodes (with the key the client was given) to the
+      \* uploaded bytes, a deleted one is gone
+      /\ \A r \in member : ~Excused(r, k) => Meets(want[k], HeldOf(r, k))
       \* an excuse covers what the defect does to that copy only: the others still hold what it is bound to
       /\ \A r \in member : Excused(r, k) =>
             \E a \in alt[r][k] : /\ a.ids \subseteq BKF /\ Matches(a, HeldOf(r, k))
@@ -190,7 +255,10 @@ Agreement ==
 TypeOK == /\ member \subseteq Reps /\ mounted \subseteq member
           /\ cache = NoCache \/ cache \subseteq Reps
 
-View == <<phase, live, ro, cache, member, mounted, need, IF hist = <<>> THEN <<>> ELSE hist[Len(hist)]>>
+(* model checking: the history only bounds the length of a behaviour (and names the generated scripts) - states that
+   differ in nothing but the operations that led to them have the same successors and satisfy the same invariants *)
+MCView == <<live, ro, cache, phase, Len(hist), nkey, ckey, avars>>
+View == <<phase, live, ro, cache, ckey, member, mounted, need, IF hist = <<>> THEN <<>> ELSE hist[Len(hist)]>>
 Emit == (phase = "op" /\ Len(hist) = MaxOps) => PrintT(<<"W", ToJson(hist)>>)
 EmitW == (phase = "snap" /\ hist # <<>>) => PrintT(<<"W", ToJson(hist)>>)
 =============================================================================
